@@ -25,6 +25,11 @@ fn get(server: SocketAddr, src: &str, path: &str) -> Option<(u16, String)> {
 }
 
 fn serve(allow: Option<Vec<String>>) -> Result<SocketAddr, String> {
+    serve_with(allow, |_| {})
+}
+
+/// like `serve`, but `pre(addr)` runs after the exporter is built (listener bound) and before its future is first polled
+fn serve_with(allow: Option<Vec<String>>, pre: impl FnOnce(SocketAddr) + Send + 'static) -> Result<SocketAddr, String> {
     let port = { let l = std::net::TcpListener::bind("127.0.0.1:0").unwrap(); l.local_addr().unwrap().port() };
     let addr: SocketAddr = format!("127.0.0.1:{}", port).parse().unwrap();
     let mut b = PrometheusBuilder::new().with_http_listener(addr);
@@ -42,9 +47,11 @@ fn serve(allow: Option<Vec<String>>) -> Result<SocketAddr, String> {
                     metrics::with_local_recorder(&rec, || {
                         metrics::counter!("c18_probe_total").increment(3);
                     });
+                    pre(addr);
                     tx.send(Ok(())).unwrap();
                     let _keep = rec;
-                    let _ = fut.await;
+                    let r = fut.await;
+                    println!("exporter future completed: ok={}", r.is_ok());
                 }
                 Err(e) => tx.send(Err(format!("build: {}", e))).unwrap(),
             }
@@ -110,6 +117,49 @@ fn main() {
                     v.push("terminates");
                 }
             }
+        }
+        "c18_loop" => {
+            let (configured, n, k_max) = (inp("configured") != 0, inp("n") as usize, inp("K") as usize);
+            let dotted = |x: u64| format!("{}.{}.{}.{}", (x >> 24) & 255, (x >> 16) & 255, (x >> 8) & 255, x & 255);
+            let list: Option<Vec<String>> = if configured {
+                Some((0..n).map(|i| format!("{}/{}", dotted(inp(&format!("addr{}", i))), inp(&format!("plen{}", i)))).collect())
+            } else { None };
+            let health = inp("health") != 0;
+            // connections whose peer address cannot be determined: reset while still in the accept backlog (Linux: accept() returns them, getpeername() fails)
+            let resets: Vec<String> = (0..k_max).filter(|k| inp(&format!("acc{}", k)) != 0 && inp(&format!("peerok{}", k)) == 0).map(|k| dotted(inp(&format!("peer{}", k)))).collect();
+            if (0..k_max).any(|k| inp(&format!("acc{}", k)) == 0) {
+                println!("note: a failing accept() cannot be provoked natively; that connection is skipped");
+            }
+            let addr = match serve_with(list.clone(), move |addr| {
+                for src in &resets {
+                    let sock = socket2::Socket::new(socket2::Domain::IPV4, socket2::Type::STREAM, None).unwrap();
+                    let local: SocketAddr = format!("{}:0", src).parse().unwrap();
+                    let _ = sock.bind(&local.into());
+                    let _ = sock.set_linger(Some(Duration::from_secs(0)));
+                    let r = sock.connect_timeout(&addr.into(), Duration::from_secs(2));
+                    println!("backlog connection from {} then RST: {:?}", src, r.is_ok());
+                    drop(sock);
+                }
+                std::thread::sleep(Duration::from_millis(200));
+            }) { Ok(a) => a, Err(e) => { println!("exporter does not start: {}", e); v.push("no_panic"); finish(&v, &plan) } };
+            let path = if health { "/health" } else { "/metrics" };
+            for k in 0..k_max {
+                if inp(&format!("acc{}", k)) == 0 || inp(&format!("peerok{}", k)) == 0 { continue; }
+                let peer = dotted(inp(&format!("peer{}", k)));
+                let should = !configured || inp(&format!("inside{}", k)) != 0;
+                let r = get(addr, &peer, path);
+                println!("connection {}: peer {} (should be served: {}) GET {} -> {:?}", k, peer, should, path, r.as_ref().map(|x| (x.0, x.1.len())));
+                match r {
+                    Some((200, body)) => { if !should || (health && body != "OK") || (!health && !body.contains("c18_probe_total 3")) { v.push("answer_follows_the_allowlist"); } }
+                    Some((403, body)) => { if should || !body.is_empty() { v.push("answer_follows_the_allowlist"); } }
+                    Some(_) => v.push("answer_follows_the_allowlist"),
+                    None => { v.push("every_accepted_connection_is_answered"); v.push("later_clients_still_served"); }
+                }
+            }
+            // whatever happened before, a later client must still get an HTTP answer
+            let later = get(addr, "127.0.0.1", "/health");
+            println!("later client 127.0.0.1 GET /health -> {:?}", later.as_ref().map(|x| x.0));
+            if later.is_none() { v.push("later_clients_still_served"); }
         }
         "c18_response" => {
             let (configured, n, inmask, peer_ok) = (inp("configured") != 0, inp("n") as usize, inp("inmask"), inp("peer_ok") != 0);
